@@ -266,7 +266,7 @@ func main() {
 			fatalf("program: %v", err)
 		}
 		if p.Ctx != "" {
-			if _, ok := scaffolds[p.Ctx]; !ok {
+			if _, ok := scaffoldFor(p.Ctx); !ok {
 				fatalf("unknown context %q", p.Ctx)
 			}
 		}
@@ -305,6 +305,16 @@ func selftest() {
 		}
 		if o.HoleType == "" {
 			fail("scaffold %s: hole never reached", ctx)
+		}
+	}
+	// 1b. so is every scaffold variant of the referred-type-kind dimension
+	for _, ctx := range allVariants() {
+		o := run(&Program{Ctx: ctx})
+		if o.Class != "accepted" {
+			fail("scaffold variant %s with an empty hole is %s: %s %s", ctx, o.Class, o.FirstErr, o.Msg)
+		}
+		if o.HoleType == "" {
+			fail("scaffold variant %s: hole never reached", ctx)
 		}
 	}
 	names := make([]string, 0, len(scaffolds))
